@@ -45,4 +45,11 @@ PROPS = {
         diffs=[], oracle="C11", level="proof", race=True,
         assumptions=["the Go memory model and scheduler are not modelled: the theorem is non-interference of pipelines that share only read-only state; that the library shares only read-only state is the regenerated fact globalWritesLib = []; data races are searched for with the race detector"],
     ),
+    "C04": dict(
+        components=["facts"],
+        lean=["PhpVerif.Props.C04"],
+        diffs=["newlines"], oracle="C04", level="proof",
+        assumptions=["M-SCAN (scanner contract, validated on every run by diff-newlines and oracle-C04, not proved): the generated DFA executes new_line at every CR/LF offset it reads, reads offsets without skipping, and consecutive tokens satisfy ts_next = te_prev",
+                     "which rule fires for which bytes (token ids, trivia classification) is a property of the 531 generated states: explored by the oracle, no theorem"],
+    ),
 }
